@@ -435,6 +435,14 @@ def read (file : Nat) (n : Nat) : M Bytes := do
   let volIdx ← getVolumeById f.rawVolume
   readLoop fileIdx volIdx f.currentOffset (n + 1) n []
 
+/-- The block write inside the loop of `write`: when the whole block is replaced the previous
+contents are irrelevant (`blank_mut`), otherwise the block is read first (`read_mut`) and only
+`data.length` bytes at `blockOffset` change. -/
+def writeBlockPart (blockIdx blockOffset : Nat) (data : Bytes) (whole : Bool) : F Unit := do
+  if whole then blankMut blockIdx else cacheRead blockIdx
+  cacheModify fun b => splice b blockOffset data
+  writeBack
+
 /-- The `while written < bytes_to_write` loop of `write`. -/
 def writeLoop (fileIdx volIdx : Nat) : (fuel : Nat) → (buffer : Bytes) → M Unit
   | 0, _ => pure ()
@@ -461,10 +469,7 @@ def writeLoop (fileIdx volIdx : Nat) : (fuel : Nat) → (buffer : Bytes) → M U
       | .ok (_, other) => M.lift (other.bind fun _ => .err .DiskFull)
       | other => M.lift (other.bind fun _ => .err .DiskFull) : M ((Nat × Nat) × (Nat × Nat × Nat)))
     let toCopy := min blockAvail buffer.length
-    withVol volIdx (do
-      if blockOffset = 0 ∧ toCopy = blockAvail then blankMut blockIdx else cacheRead blockIdx
-      cacheModify fun b => splice b blockOffset (buffer.take toCopy)
-      writeBack)
+    withVol volIdx (writeBlockPart blockIdx blockOffset (buffer.take toCopy) (blockOffset = 0 ∧ toCopy = blockAvail))
     modifyFile fileIdx fun f =>
       let newOffset := f.currentOffset + toCopy
       let f := { f with curClusterOff := cc.1, curCluster := cc.2 }
